@@ -56,6 +56,12 @@ CHECKS = {
         note="Trusts the 40-line Fraction model in checks/c07.py and a 1e-9 relative tolerance; 0/0 pairs accept NaN or 0.",
         ref="2 C07",
     ),
+    "C11": dict(
+        technique="property-based testing: exhaustive short argument vectors + Hypothesis long vectors built from atoms with a by-construction oracle; /bin/sh as word-splitting oracle for command strings",
+        text="Generated-input search over compiler command lines: all vectors of <=3 atoms over a reduced catalogue and random vectors of up to 40 atoms mixing recognised options (-D/-I/-isystem/-include, attached and separate, awkward values) with ~75 real unmodelled flags, for known and unknown compilers. The ordered lists returned by ArgumentParser.parse_args must equal what the atoms say; any exception is a violation. The same vectors rendered as command strings (three quoting styles, split checked with /bin/sh) must load to the same entries as the arguments array. Bounded exploration.",
+        note="Expected values follow from the generator's atoms (no parsing shared with the code under test); a leading-dash value attached to -isystem/-include is outside the generated domain (spelling collides with other real options).",
+        ref="2 C11",
+    ),
     "C14": dict(
         technique="property-based testing with harness-owned schedules: Hypothesis code bases re-analysed in fresh processes under generated (hash seed, directory-order shuffle, platform/entry permutation) triples; all schedules must agree",
         text="Generated-input search over order-sensitive code bases (same-named headers in several -I directories, byte-identical twins, >=3 platforms). Each input is analysed in fresh interpreter processes under several generated schedules - PYTHONHASHSEED in {0..3, random}, os.scandir/os.listdir shuffled by a seed through a wrapper, [platform.*] tables and database entries permuted - and the platform-set table, printed metrics and distance matrix, per-line attribution, coverage export, duplicate groups and tree rows must be equal after parsing. Bounded sample of schedules, no exhaustive interleaving.",
